@@ -2,9 +2,9 @@
 # tools/seed_batch.sh <ID> <checks>   evaluate /tmp/seeds/<ID>/{A,B} and print one summary line each
 id=$1; checks=$2
 for v in A B; do
-  [ -d /tmp/seeds/$id/$v ] || continue
-  python3 tools/seed_eval.py /tmp/seeds/$id/$v --checks "$checks" > /tmp/seeds/$id/$v/eval.json 2>/tmp/seeds/$id/$v/eval.err
-  python3 - /tmp/seeds/$id/$v/eval.json <<'PY'
+  [ -d ${SEEDS:-/tmp/seeds}/$id/$v ] || continue
+  python3 tools/seed_eval.py ${SEEDS:-/tmp/seeds}/$id/$v --checks "$checks" > ${SEEDS:-/tmp/seeds}/$id/$v/eval.json 2>${SEEDS:-/tmp/seeds}/$id/$v/eval.err
+  python3 - ${SEEDS:-/tmp/seeds}/$id/$v/eval.json <<'PY'
 import json,sys
 t=open(sys.argv[1]).read()
 try:
